@@ -10,14 +10,35 @@ from __future__ import annotations
 
 import cfcommon as cf
 from check_c18 import cf_mc
-from common import Outcome, workdir
+from common import NCPU, MachineryError, Outcome, cached, tlc, tlc_ok, tlc_violation, workdir
 
 PID = "C08"
+IDCS_INVS = ["Sound", "Vocab", "UndefOnlyIfImpossible"]
+
+
+def idcstar_mc(wd, slice_=60):
+    """Design level: the reference IDC* (IDStar.tla: lines 1-5 with the counterfactual-graph rule 2, sound partial version)
+    answers only with terms that denote P(outcomes | conditions) in family F, and says 'undefined' only for impossible
+    conditions, on every ordered 3-node ADMG x (both splits of a slice of the two-atom events)."""
+    def go():
+        cfg = wd / "IDCStarMachine.cfg"
+        cfg.write_text(f'SPECIFICATION Spec\nCONSTANTS\n  Family = "A3o"\n  RndN = 5\n  RndK = 4\n  Seeds = {{1, 2}}\n  MaxAtoms = 2\n'
+                       f'  Slice = {slice_}\n  Check = TRUE\n  Mode = "cstar"\n' + "".join(f"INVARIANT {i}\n" for i in IDCS_INVS)
+                       + "CHECK_DEADLOCK FALSE\n")
+        r = tlc("IDStarMachine.tla", str(cfg), workers=NCPU, meta=wd / "idcsmc", xmx="6g", timeout=5400)
+        v = tlc_violation(r)
+        if v:
+            raise MachineryError(f"IDStarMachine (cstar): {v} violated\n" + r["out"][-2500:])
+        tlc_ok(r, "IDStarMachine cstar")
+        return {"family": "A3o", "mode": "cstar", "pair_slice": slice_, "generated": r["generated"], "distinct": r["distinct"],
+                "invariants": IDCS_INVS}
+    return cached(f"idcs-mc-{slice_}", go, module="IDStarMachine")
 
 
 def warm():
     wd = workdir("c08-warm")
     cf.gen(wd, "A3", 3, 3, 2, False)
+    idcstar_mc(wd)
 
 
 def splits(ev):
@@ -26,7 +47,7 @@ def splits(ev):
         yield [ev[i] for i in range(n) if not mask >> i & 1], [ev[i] for i in range(n) if mask >> i & 1]
 
 
-def records(wd, tier):
+def records(wd, tier, diag=False):
     items, g = cf.event_family(wd, tier, pairs_step=42, with_triples=True)
     for gi, it in enumerate(items):
         pairs = [e for e in it["evs"] if len(e) == 2]
@@ -39,7 +60,7 @@ def records(wd, tier):
             evs += [sp[(gi + k) % 6], sp[(gi + k + 3) % 6]]
         it["evs"] = evs
     groups = cf.run_y0(wd, "cstar", items, "c08")
-    vs, st, by_id = cf.judge(wd, groups, seeds=(1, 2))
+    vs, st, by_id = cf.judge(wd, groups, seeds=(1, 2), diag=diag)
     return vs, st, by_id, g
 
 
@@ -47,16 +68,21 @@ def run(tier: str) -> int:
     out = Outcome(PID, tier)
     wd = workdir(PID)
     mc = cf_mc(wd)[0]
-    vs, st, by_id, g = records(wd, tier)
+    mc2 = idcstar_mc(wd)[0]
+    vs, st, by_id, g = records(wd, tier, diag=tier == "thorough")   # the reference cross-tab is costly: thorough only
     cf.report(out, vs, by_id, skip={"vocabulary"})
+    xtab = {}
+    for i, v in vs.items():   # diagnostic: where y0 is wrong, does the reference IDC* answer or refuse?
+        k = f"y0:{v['clause']}/ref:{v.get('ref')}"
+        xtab[k] = xtab.get(k, 0) + 1
     cov = cf.coverage(vs, by_id, st, g,
                       "one record = idc_star(G, outcomes, conditions) for a split of a TLC-generated 2- or 3-atom conjunction over a "
                       "3-node ADMG (fixed deterministic family); TLC evaluates the returned expression (read with the events' values) "
                       "and P(outcomes and conditions)/P(conditions) in functional models with shared noise on all base assignments; "
                       "non-trivial = distinct input with an answer on a graph with a bidirected edge",
-                      {"design_mc": [mc]})
-    cov["states"] += mc["distinct"]
-    cov["transitions"] += mc["generated"]
+                      {"design_mc": [mc, mc2], "y0_outcome_vs_reference_idcstar": xtab})
+    cov["states"] += mc["distinct"] + mc2["distinct"]
+    cov["transitions"] += mc["generated"] + mc2["generated"]
     return out.finish("model_checking", cov, [
         "fixed family (independent of VERIF_SEED); known findings are listed by (input, semantic signature)",
         "family F as in C07; points where P(conditions) = 0 are skipped"])
